@@ -552,7 +552,7 @@ func TestC08(t *testing.T) {
 		}
 		c := drawC08(t)
 		c.ByteEdits = *byteEdits
-		g := hist.NewGen(t, c08Weights, hist.Universe[:6], 3, cfg.RecordSize)
+		g := hist.NewGen(t, c08Weights, hist.Universe[:6], 3, cfg.RecordSize).WithSuffixNames(t, cfg)
 		g.Avoid = avoidFor("C08")
 		g.MaxSize = 1500
 		n := rapid.IntRange(2, 6).Draw(t, "nsteps")
